@@ -104,4 +104,9 @@ where
         self.factors.refactor().unwrap();
         self.factors.Dinv.is_finite()
     }
+
+    #[cfg(clarabel_verif)]
+    fn verif_values(&self, index: &[usize]) -> Option<Vec<T>> {
+        Some(self.factors.verif_values(index))
+    }
 }
